@@ -22,7 +22,7 @@ CLAIMED = {
          "annotation with the reference conformance oracle."),
    ref="DESIGN.md section 4 C01",
    note=("partial: rendering/evaluation of the text is observed (C11 RenderedDenotes is stated, not proved); hypotheses of pipeline_sound: values "
-         "well-formed, types storable (classes importable under their own names) and normal; histories below the query limit. One open finding "
+         "well-formed, types storable (classes importable under their own names); histories below the query limit. One open finding "
          "shared with C11 (generated class-name collision)"),
    technique="Lean 4 proof (composition of the C04/C05/C07/C08/C13 theorems) + end-to-end differential runs of the real tracer, store and CLI against a ground-truth recorder"),
  "C04": dict(
@@ -52,13 +52,17 @@ CLAIMED = {
  "C05": dict(
    text=("Lean 4 theorems: under the tight reading of Any (Any admits nothing) every observed value is still a member of the inferred "
          "type, so Any only ever stands for empty containers (MT.C05.any_only_for_empty_containers); a key of a merged TypedDict is "
-         "required iff every observed dict has it and optional iff some has it and some lacks it (merged_keys, merged_shape). The full "
-         "lock-step witness statement (every union alternative inhabited, exact classes) is a Lean definition (InferWitnessed / witnessed) "
-         "evaluated on the model and, through an independent Python twin, on the implementation for every generated multiset."),
+         "required iff every observed dict has it and optional iff some has it and some lacks it (merged_keys, merged_shape); and at the "
+         "default max_typed_dict_size 0 the lock-step witness statement holds for every non-empty collection of values of any shape: "
+         "every class named is the exact class of an observed value, every union alternative is inhabited, tuple types have observed "
+         "tuples of that length, Any only below an observed empty container (infer_witnessed_partial, from Lemmas/Witness: monotonicity "
+         "of `witnessed` on TypedDict-free types, shrink_witnessed by functional induction over shrink, a value witnesses its own type). "
+         "For k > 0 (TypedDict merges) the full statement InferWitnessed is a Lean definition evaluated on the model and, through an "
+         "independent Python twin, on the implementation for every generated multiset."),
    ref="DESIGN.md section 4 C05",
-   note=("partial: InferWitnessed is stated and evaluated, not proved; trusted: Lean kernel + standard axioms, hand-written model tied "
-         "by correspondence (infer + witness oracle pair incl. widened negative controls)"),
-   technique="Lean 4 proof over a hand-written model + executable formal witness oracle + differential correspondence check"),
+   note=("partial: the witness statement is proved for k = 0 and evaluated for k > 0; trusted: Lean kernel + standard axioms, hand-written model "
+         "tied by correspondence (infer + witness oracle pair incl. widened negative controls)"),
+   technique="Lean 4 proof over a hand-written model (structural, mutual and functional induction) + executable formal witness oracle + differential correspondence check"),
  "C07": dict(
    text=("Lean 4 theorems over a model of the GenericTypeRewriter traversal and the five shipped overrides: every rewriter alone, the "
          "default chain and any chain without RemoveEmptyContainers admit every (tight) inhabitant of the input (never_narrows, "
@@ -74,7 +78,9 @@ CLAIMED = {
    technique="Lean 4 proof (mutual structural induction over the rewriter traversal) + differential correspondence check"),
  "C08": dict(
    text=("Lean 4 theorems over a model of type_to_dict/type_from_dict and CallTraceRow: every storable, normal type decodes back to exactly "
-         "itself at any nesting depth (type_roundtrip: nested and optional-key TypedDicts, Tuple[()], Tuple[T, ...], Type[C], unions); every "
+         "itself at any nesting depth (type_roundtrip: nested and optional-key TypedDicts, Tuple[()], Tuple[T, ...], Type[C], unions), and every "
+         "type the tracer can record or the merge can build is normal (Lemmas/Normal: getType_normal, shrink_normal), so it round-trips exactly as "
+         "soon as its classes are importable (recorded_type_roundtrip, inferred_type_roundtrip); every "
          "trace of an importable function of every kind (plain, classmethod, read-only property, functools.wraps chain) decodes back to the "
          "same function, argument, return and yield types (trace_roundtrip), absent kept distinct from NoneType (absent_iff_null, "
          "maybe_roundtrip); settable properties are rejected. Tied to /repo by comparing the JSON the implementation writes with the model's, "
